@@ -126,6 +126,32 @@ def _random_table(rng, i, big):
     return s
 
 
+def _repeated_keys(rng, tier):
+    """a key given more than once — by name, as the same column view, as the very same external vector — anywhere in the key list,
+    each occurrence with its own direction: the first occurrence decides, and the directions of the keys after it must stay with
+    their own keys"""
+    i = 0
+    pats = [(0, 0, 1), (0, 1, 0), (0, 1, 1), (1, 0, 0), (0, 0, 1, 1), (0, 1, 0, 1), (0, 0, 0, 1)]
+    for rep in range(2 if tier == "quick" else 12):
+        n = rng.randint(5, 9)
+        a = [rng.choice([0, 1, None]) for _ in range(n)]
+        b = [rng.choice([0, 1, 2, None]) for _ in range(n)]
+        for pat in pats:
+            for dirs in itertools.product((False, True), repeat=len(pat)):
+                for src in ("name", "col", "vec"):
+                    i += 1
+                    base = _table_spec(i, [a, b], [False, False], i % 2 == 0, None, None, ([src, src], "list", "list"))
+                    by, first = [], {}
+                    for pos, j in enumerate(pat):
+                        k = dict(base["by"][j])
+                        if j in first and "vec" in k:
+                            k["same"] = first[j]
+                        first.setdefault(j, pos)
+                        by.append(k)
+                    base.update(by=by, reverse=list(dirs), rev_form="list" if i % 3 else "tuple", by_form="list" if i % 2 else "tuple")
+                    yield base
+
+
 def _malformed(rng, tier):
     base = [[0, 1, None], [1, 1, 0]]
     i = 0
@@ -231,6 +257,7 @@ def generate(rng, tier):
     thorough = tier != "quick"
     counter = [0]
     yield from _malformed(rng, tier)
+    yield from _repeated_keys(rng, tier)
     yield from _exhaustive_tables(1, 4, counter)
     yield from _exhaustive_vectors(4)
     yield from _exhaustive_tables(2, 3, counter)
@@ -288,6 +315,10 @@ def _build(spec):
         elif "col" in k:
             keys.append(t[k["col"]])
             model_keys.append({"k": "cells", "cells": _ranks(cols[names.index(k["col"])])})
+        elif "vec" in k and "same" in k and k["same"] < len(keys):
+            # the very same key object once more
+            keys.append(keys[k["same"]])
+            model_keys.append(dict(model_keys[k["same"]]))
         elif "vec" in k:
             # an external key vector may carry the NAME of a stored column (e.g. t.score.fillna(0) keeps the name 'score'):
             # the sort must go by the vector's values, not by the stored column of that name
